@@ -312,6 +312,11 @@ def _analysis_entries(w: World):
 
     E["calculate_project_loss"] = lambda: (A.calculate_project_loss, dict(allocation_details=details()))
     E["calculate_effective_supports"] = lambda: (A.calculate_effective_supports, dict(instance=w.inst, profile=w.prof, allocation=w.alloc, mes_params=w.mes_params))
+    # … and for the outcome of an ITERATED Equal Shares run made with analytics=True, whose details record a run at a higher budget than the
+    # instance's (round 8, C20-r8A: `final_budget` defaulted from those details, and the instance's budget limit overwritten with it)
+    E["calculate_effective_supports[iterated outcome]"] = lambda: (A.calculate_effective_supports, dict(
+        instance=w.inst, profile=w.prof, mes_params=w.mes_params,
+        allocation=w.rules().method_of_equal_shares(w.inst, w.prof, sat_class=w.sc, voter_budget_increment=1, analytics=True)))
     someproj = lambda: w.projs[rng.choice([n for n, _ in w.case.projects])]  # noqa: E731
     E["calculate_effective_support"] = lambda: (A.calculate_effective_support, dict(instance=w.inst, profile=w.prof, project=someproj(), was_picked=rng.random() < 0.5, mes_params=w.mes_params))
     E["ProjectLoss"] = lambda: (A.ProjectLoss, dict(project=someproj(), supporters_budget=3, budget_lost={someproj(): 1}))
